@@ -1,24 +1,38 @@
 ------------------------------ MODULE PassthroughImpl ------------------------------
 (* I level of C05 / C06 / C18: how src/passthrough resolves inode numbers to host files and which
-   system calls of HostFs it issues, request by request -- including behaviour believed wrong:
+   system calls of HostFs it issues, request by request.  The module transcribes the code as it is
+   now (/repo after 398331f, 8a1d8ff, 40f7e54, be556e3, a15b2a9):
 
      do_lookup          ".." at inode 1 rewritten to "."; the slash test of lookup(); one
                         openat(O_PATH|O_NOFOLLOW) of a single component; inode table keyed by host file
-     mutators           validate_path_component (".", "..", "/") first; mkdir/symlink fetch the directory
-                        file INSIDE the switched-credentials scope (EPERM with file handles: S15), create's
-                        second step re-opens the existing inode inside that scope as well
-     create             two steps: openat(O_CREAT|O_EXCL); on EEXIST (no O_EXCL asked) lookup + open_inode(flags)
-     open_inode         is_safe_inode gate (type remembered at lookup), get_writeback_open_flags, re-open by reference
+     mutators           validate_path_component (".", "..", "/") first; the directory file is obtained BEFORE
+                        the credentials are switched (mkdir, mknod, symlink, create)
+     create             two steps: openat(O_CREAT|O_EXCL); on EEXIST (no O_EXCL asked): sealed + O_TRUNC refused,
+                        lookup, EISDIR for a directory, open_inode_as (O_PATH file as root, re-open through /proc
+                        as the caller), attributes re-read after a truncating open; the lookup reference is
+                        given back when the second step fails
+     open_inode         is_safe_inode gate (type remembered at lookup), get_writeback_open_flags, re-open by reference;
+                        do_open refuses O_TRUNC on a sealed export
      read/write         get_data (handle, or a transient open in no_open mode), check_fd_flags: F_SETFL with the
-                        request's flags when they differ from the remembered ones; seal_size_check; a WRITE that
-                        is refused drops the File made from the handle's descriptor: the descriptor is closed
+                        request's flags when they differ from the remembered ones; sealed: O_APPEND refused,
+                        seal_size_check; early returns leave the handle's descriptor alone
      setattr            SIZE refused when sealed; ftruncate through the handle or a transient O_RDWR open
      fallocate          seal_size_check mode table
+
+   AsFound (a set of names, empty in every configuration that counts as evidence) switches the code as it
+   was found back on, one defect per name; the anti-vacuity configurations MC_Pt_asfound_*.cfg must
+   find the old violations again:
+     "fd-close"          a WRITE refused by seal_size_check closes the handle's descriptor        (398331f)
+     "seal-holes"        O_APPEND writes and O_TRUNC opens/creates are not refused when sealed     (8a1d8ff)
+     "ifh-creds"         inode_file_handles: directory/inode file opened inside the credentials scope (40f7e54)
+     "create-dir"        create of an existing directory opens the directory                       (be556e3)
+     "create-stale-attr" create(O_TRUNC) replies with the attributes read before the truncation    (a15b2a9)
+     "seeded:nofollow"   NOT a finding: O_NOFOLLOW lost in the lookup (seeded defect, anti-vacuity of C06)
 
    References: the model gives every reference slot of the client its own O_PATH entry in S.of (the code
    keeps one descriptor per inode and a count -- the same thing for the environment).  The A level
    (Passthrough!Expect) is evaluated on the same pre-state; `bad` collects the A-level obligations a step
-   breaks while the history is free of known findings (`taint`, DESIGN 2.3 item 5). *)
+   breaks.  `taint` (DESIGN 2.3 item 5) is kept for findings recorded instead of repaired: none at present. *)
 EXTENDS Passthrough, Json
 
 CONSTANTS PlainNames,     \* names used for lookups and new objects
@@ -26,7 +40,7 @@ CONSTANTS PlainNames,     \* names used for lookups and new objects
           MaxOps, MaxIno,
           Cfg,            \* [seal, no_open, ifh, wb]
           Mode,           \* "c05" | "c06" | "c18": which requests are generated
-          TaintOn,        \* FALSE: known findings are not excused (demonstration that TLC derives them from I and HostFs)
+          AsFound,        \* set of as-found defects switched back on (see above); {} = the code as it is
           InitS,          \* initial HostFs state: inode 1 = directory holding the export, inode 2 = the export
           ScenCfg, ScenTree  \* configuration and initial export content in the harness' scenario format (exported with every history)
 
@@ -71,7 +85,11 @@ WbFlags(fl) == IF ~Cfg.wb THEN fl ELSE
 DoLookup(T, it, nx, pino, name, nk, slot) ==
   LET k == IF pino = 1 /\ nk = "dotdot" THEN "dot" ELSE nk IN
   IF pino \notin DOMAIN it THEN [ok |-> FALSE, st |-> "EBADF", T |-> T, itab |-> it, nexti |-> nx, ino |-> 0, id |-> 0]
-  ELSE LET r == Lookup(T, it[pino].i, name, k) IN
+  ELSE LET r0 == Lookup(T, it[pino].i, name, k)
+           \* seeded defect: without O_NOFOLLOW a symlink found under the name is followed
+           w == IF "seeded:nofollow" \in AsFound /\ r0.ok /\ T.ino[r0.ret.id].t = "lnk"
+                THEN Walk(T, 1, it[pino].i, T.ino[r0.ret.id].tgt, FALSE, 8) ELSE [ok |-> FALSE, i |-> 0]
+           r == IF w.ok THEN Succ(T, [id |-> w.i]) ELSE r0 IN
     IF ~r.ok THEN [ok |-> FALSE, st |-> ErrOf(r), T |-> T, itab |-> it, nexti |-> nx, ino |-> 0, id |-> 0]
     ELSE LET id == r.ret.id
              known == {n \in DOMAIN it : it[n].i = id}
@@ -82,20 +100,12 @@ DoLookup(T, it, nx, pino, name, nk, slot) ==
 OpenInode(T, it, ino, c, fl, key) ==
   IF ino \notin DOMAIN it THEN Fail(T, {"EBADF"})
   ELSE IF ~IsSafeType(it[ino].t) THEN Fail(T, {"EBADF"})
-  ELSE IF Cfg.ifh /\ c.uid # 0 THEN Fail(T, {"EPERM"})          \* open_by_handle_at needs CAP_DAC_READ_SEARCH
+  ELSE IF "ifh-creds" \in AsFound /\ Cfg.ifh /\ c.uid # 0 THEN Fail(T, {"EPERM"})   \* as found: open_by_handle_at inside set_creds
   ELSE OpenIno(T, c, it[ino].i, WbFlags(fl) \ {"CREAT"}, key)
 
 (* ---------------- finishing a step: compare with the A level ---------------- *)
-KnownOf(q, got) ==
-  (IF Cfg.seal /\ q.op = "write" /\ "APPEND" \in ToSetOf(q.fl) THEN {"S4-append-write"} ELSE {})
-  \cup (IF Cfg.seal /\ q.op \in {"open", "create"} /\ "TRUNC" \in ToSetOf(q.fl) THEN {"S4-trunc-open"} ELSE {})
-  \cup (IF Cfg.seal /\ q.op = "write" /\ got.st # "OK" THEN {"refused-write-closes-fd"} ELSE {})
-  \cup (IF Cfg.ifh /\ q.op \in {"mkdir", "symlink", "create"} /\ q.uid # 0 THEN {"S15-ifh-nonroot"} ELSE {})
-  \cup (IF q.op = "create" /\ HasRef(S, q.p) /\ IsDir(S, IdOf(S, q.p)) /\ q.nk = "plain" /\ q.name \in Names(S, IdOf(S, q.p))
-           /\ IsDir(S, S.dent[IdOf(S, q.p)][q.name]) /\ "EXCL" \notin ToSetOf(q.fl) THEN {"create-on-directory"} ELSE {})
-  \cup (IF q.op = "create" /\ HasRef(S, q.p) /\ IsDir(S, IdOf(S, q.p)) /\ q.nk = "plain" /\ q.name \in Names(S, IdOf(S, q.p))
-           /\ IsReg(S, S.dent[IdOf(S, q.p)][q.name]) /\ SizeOf(S.ino[S.dent[IdOf(S, q.p)][q.name]]) > 0
-           /\ {"TRUNC"} \subseteq ToSetOf(q.fl) /\ "EXCL" \notin ToSetOf(q.fl) /\ got.st = "OK" THEN {"create-trunc-stale-attr"} ELSE {})
+\* findings recorded instead of repaired (taint): none at present -- every finding of this engine is fixed in /repo
+KnownOf(q, got) == {}
 \* `cur`: size of the addressed regular file before the request (for the sealing class)
 CurOf(q) ==
   IF "h" \in DOMAIN q /\ q.h >= 0 /\ HasHandle(S, q.h) THEN SizeOf(S.ino[IdOf(S, HKey(q.h))])
@@ -113,7 +123,7 @@ Broken(q, got, T2, e) ==
      \cup (IF Cfg.seal /\ ~neutral /\ got.st # "OK" /\ [ino |-> T2.ino, dent |-> T2.dent] # [ino |-> S.ino, dent |-> S.dent] THEN {"seal-refused-effect"} ELSE {})
 Fin(q, got, T2, it2, ht2, nx, nh, entry, handle, ino, h) ==
   LET e == Expect(S, X, q, NSlot, HSlot, IF HasFresh(S) THEN FreshId(S) ELSE 0)
-      kf == IF TaintOn THEN KnownOf(q, got) ELSE {}
+      kf == KnownOf(q, got)
       t2 == taint \cup kf
   IN /\ S' = T2 /\ itab' = it2 /\ htab' = ht2 /\ nexti' = nx /\ nexth' = nh
      /\ slots' = IF entry THEN Append(slots, ino) ELSE slots
@@ -156,7 +166,7 @@ PtMk(ps, nm, kind, uid, tgt) ==
   IF pino = 0 THEN Keep(q, Res("NOSLOT", NoRet))
   ELSE IF nm.k \in {"slash", "dot", "dotdot"} THEN Keep(q, Res("EINVAL", NoRet))          \* validate_path_component
   ELSE IF pino \notin DOMAIN itab THEN Keep(q, Res("EBADF", NoRet))
-  ELSE IF Cfg.ifh /\ uid # 0 /\ kind \in {"mkdir", "symlink"} THEN Keep(q, Res("EPERM", NoRet))   \* S15: get_file() inside set_creds
+  ELSE IF "ifh-creds" \in AsFound /\ Cfg.ifh /\ uid # 0 /\ kind \in {"mkdir", "symlink"} THEN Keep(q, Res("EPERM", NoRet))   \* as found: get_file() inside set_creds
   ELSE IF ~HasFresh(S) THEN Keep(q, Res("ENOSPC", NoRet))
   ELSE LET nid == FreshId(S)
            d == itab[pino].i
@@ -186,15 +196,18 @@ PtCreate(ps, nm, fl, uid) ==
             Fin(q, Res("OK", Attr(T3, l.id)), T3, l.itab, IF wantH THEN (nexth :> [ino |-> l.ino, flags |-> fl]) @@ htab ELSE htab,
                 l.nexti, IF wantH THEN nexth + 1 ELSE nexth, TRUE, wantH, l.ino, nexth)
        ELSE IF r1.errs # {"EEXIST"} \/ "EXCL" \in fl THEN Keep(q, Res(ErrOf(r1), NoRet))
-       ELSE \* step 2: the name exists: lookup, then open_inode(args.flags) inside the credentials scope
+       ELSE IF Cfg.seal /\ "TRUNC" \in fl /\ "seal-holes" \notin AsFound THEN Keep(q, Res("EPERM", NoRet))   \* existing file, sealed: no truncating open
+       ELSE \* step 2: the name exists: lookup, EISDIR for a directory, open_inode_as(args.flags, caller)
             LET l == DoLookup(S, itab, nexti, pino, nm.s, nm.k, NSlot) IN
             IF ~l.ok THEN Keep(q, Res(l.st, NoRet))
-            ELSE LET o == OpenInode(l.T, l.itab, l.ino, c, fl, HKey(HSlot)) IN
+            ELSE LET o == IF S.ino[l.id].t = "dir" /\ "create-dir" \notin AsFound THEN Fail(l.T, {"EISDIR"})
+                          ELSE OpenInode(l.T, l.itab, l.ino, c, fl, HKey(HSlot)) IN
                  IF ~o.ok THEN \* nothing is returned to the client: the reference taken by the lookup is given back (forget_one)
                       Fin(q, Res(ErrOf(o), NoRet), Close(l.T, NSlot), itab, htab, l.nexti, nexth, TRUE, wantH, 0, 0)
-                 ELSE LET T3 == IF wantH THEN o.S ELSE Close(o.S, HKey(HSlot)) IN
-                      \* the entry (attributes) was built by do_lookup BEFORE open_inode: stale after a truncating open
-                      Fin(q, Res("OK", Attr(l.T, l.id)), T3, l.itab, IF wantH THEN (nexth :> [ino |-> l.ino, flags |-> fl]) @@ htab ELSE htab,
+                 ELSE LET T3 == IF wantH THEN o.S ELSE Close(o.S, HKey(HSlot))
+                          \* the entry was built by do_lookup before the open: re-read after a truncating open
+                          at == IF "TRUNC" \in fl /\ "create-stale-attr" \notin AsFound THEN Attr(T3, l.id) ELSE Attr(l.T, l.id) IN
+                      Fin(q, Res("OK", at), T3, l.itab, IF wantH THEN (nexth :> [ino |-> l.ino, flags |-> fl]) @@ htab ELSE htab,
                           l.nexti, IF wantH THEN nexth + 1 ELSE nexth, TRUE, wantH, l.ino, nexth)
 PtLink(ns, ps, nm) ==
   LET q == [op |-> "link", n |-> ns, p |-> ps, name |-> nm.s, nk |-> nm.k, uid |-> 0, gid |-> 0] IN
@@ -224,6 +237,7 @@ PtOpen(ns, fl) ==
   LET q == [op |-> "open", n |-> ns, fl |-> FlSeq(fl), flags |-> FlNum(fl), uid |-> 0, gid |-> 0]  ino == SlotIno(ns) IN
   IF ino = 0 THEN Keep(q, Res("NOSLOT", NoRet))
   ELSE IF Cfg.no_open THEN Keep(q, Res("ENOSYS", NoRet))
+  ELSE IF Cfg.seal /\ "TRUNC" \in fl /\ "seal-holes" \notin AsFound THEN Keep(q, Res("EPERM", NoRet))     \* do_open: sealed, no truncating open
   ELSE LET o == OpenInode(S, itab, ino, Root0, fl, HKey(HSlot)) IN
        IF ~o.ok THEN Keep(q, Res(ErrOf(o), NoRet))
        ELSE Fin(q, Res("OK", NoRet), o.S, itab, (nexth :> [ino |-> ino, flags |-> fl]) @@ htab, nexti, nexth + 1, FALSE, TRUE, 0, nexth)
@@ -262,13 +276,14 @@ PtRead(ns, hs, off, len, reqfl) ==
 PtWrite(ns, hs, off, data, reqfl) ==
   LET q == [op |-> "write", n |-> ns, h |-> hs, off |-> off, len |-> Len(data), data |-> data, fl |-> FlSeq(reqfl), flags |-> FlNum(reqfl), uid |-> 0, gid |-> 0] IN
   IF SlotIno(ns) = 0 \/ (hs >= 0 /\ SlotH(hs) = 0) THEN Keep(q, Res("NOSLOT", NoRet))
+  ELSE IF Cfg.seal /\ "APPEND" \in reqfl /\ "seal-holes" \notin AsFound THEN Keep(q, Res("EPERM", NoRet))   \* sealed: an O_APPEND write always grows the file
   ELSE LET g == GetData(ns, hs, {"RDWR"}, reqfl) IN
        IF ~g.ok THEN Keep(q, Res(g.st, NoRet))
-       ELSE IF g.key \notin DOMAIN g.T.of THEN Keep(q, Res("EBADF", NoRet))      \* descriptor closed behind the handle's back
+       ELSE IF g.key \notin DOMAIN g.T.of THEN Keep(q, Res("EBADF", NoRet))      \* (as found only) descriptor closed behind the handle's back
        ELSE LET sz == SizeOf(g.T.ino[g.T.of[g.key].i]) IN
             IF Cfg.seal /\ off + Len(data) > sz
-            THEN \* seal_size_check refuses; the early return drops the File wrapping the handle's descriptor: closed
-                 Fin(q, Res("EPERM", NoRet), Close(g.T, g.key), itab, g.ht, nexti, nexth, FALSE, FALSE, 0, 0)
+            THEN \* seal_size_check refuses. As found, the early return dropped the File wrapping the handle's descriptor: closed
+                 Fin(q, Res("EPERM", NoRet), IF "fd-close" \in AsFound THEN Close(g.T, g.key) ELSE Drop(g.T, g), itab, g.ht, nexti, nexth, FALSE, FALSE, 0, 0)
             ELSE LET r == PWrite(g.T, g.key, off, data) IN
                  Fin(q, IF r.ok THEN Res("OK", r.ret) ELSE Res(ErrOf(r), NoRet), Drop(r.S, g), itab, g.ht, nexti, nexth, FALSE, FALSE, 0, 0)
 PtFallocate(ns, hs, mode, off, len) ==
@@ -304,28 +319,29 @@ Plain == {[s |-> n, k |-> "plain"] : n \in PlainNames}
 RSlots == 0..(Len(slots) - 1)
 HSlots == IF Cfg.no_open THEN {-1} ELSE 0..(Len(hslots) - 1)
 Uids == IF Mode = "c05" THEN {0, 1000} ELSE {0}
-OFlags == IF Mode = "c18" THEN {{}, {"RDWR"}, {"RDWR", "APPEND"}, {"RDWR", "TRUNC"}, {"WR"}}
+OFlags == IF Mode = "c18fd" THEN {{"RDWR"}} ELSE IF Mode = "c18" THEN {{}, {"RDWR"}, {"RDWR", "APPEND"}, {"RDWR", "TRUNC"}, {"WR"}}
           ELSE IF Mode = "c05" THEN {{}, {"RDWR"}, {"RDWR", "APPEND"}, {"WR", "TRUNC"}} ELSE {{}, {"RDWR"}}
-WFlags == IF Mode = "c18" THEN {{"RDWR"}, {"RDWR", "APPEND"}} ELSE IF Mode = "c05" THEN {{"RDWR"}, {"RDWR", "APPEND"}} ELSE {{"RDWR"}}
+WFlags == IF Mode = "c18fd" THEN {{"RDWR"}} ELSE IF Mode = "c18" THEN {{"RDWR"}, {"RDWR", "APPEND"}} ELSE IF Mode = "c05" THEN {{"RDWR"}, {"RDWR", "APPEND"}} ELSE {{"RDWR"}}
 Targets == IF Mode = "c06" THEN {<<"..", "secret">>, <<"/", "secret">>, <<"..">>} ELSE {<<"a">>}
 \* a handle is used with the inode it was opened on (IF, not \/: TLC explores both disjuncts of an action-level \/)
 HOK(ns, hs) == IF hs < 0 THEN TRUE ELSE IF SlotH(hs) = 0 THEN TRUE ELSE htab[SlotH(hs)].ino = SlotIno(ns)
+M18 == Mode \in {"c18", "c18fd"}         \* "c18fd": lookup / open / write only (anti-vacuity run of the descriptor defect)
 Next ==
   /\ nops < MaxOps
   /\ \/ \E ps \in RSlots, nm \in AllNames : PtLookup(ps, nm)
-     \/ (Mode # "c18" /\ \E ns \in RSlots : PtForget(ns))
-     \/ (Mode # "c18" /\ \E ps \in RSlots, nm \in AllNames, kind \in {"mkdir", "mknod", "symlink"}, uid \in Uids, t \in Targets : (kind = "symlink" \/ t = CHOOSE x \in Targets : TRUE) /\ PtMk(ps, nm, kind, uid, t))
-     \/ \E ps \in RSlots, nm \in (IF Mode = "c18" THEN Plain ELSE AllNames), fl \in OFlags, uid \in Uids : PtCreate(ps, nm, fl, uid)
-     \/ (Mode # "c18" /\ \E ns \in RSlots, ps \in RSlots, nm \in AllNames : PtLink(ns, ps, nm))
-     \/ (Mode # "c18" /\ \E ps \in RSlots, nm \in AllNames, d \in BOOLEAN : PtRemove(ps, nm, d))
-     \/ (Mode # "c18" /\ \E ps \in RSlots, ps2 \in RSlots, nm \in AllNames, nm2 \in AllNames, rf \in (IF Mode = "c05" THEN RenFlags ELSE {""}) : PtRename(ps, nm, ps2, nm2, rf))
+     \/ (~M18 /\ \E ns \in RSlots : PtForget(ns))
+     \/ (~M18 /\ \E ps \in RSlots, nm \in AllNames, kind \in {"mkdir", "mknod", "symlink"}, uid \in Uids, t \in Targets : (kind = "symlink" \/ t = CHOOSE x \in Targets : TRUE) /\ PtMk(ps, nm, kind, uid, t))
+     \/ (Mode # "c18fd" /\ \E ps \in RSlots, nm \in (IF Mode = "c18" THEN Plain ELSE AllNames), fl \in OFlags, uid \in Uids : PtCreate(ps, nm, fl, uid))
+     \/ (~M18 /\ \E ns \in RSlots, ps \in RSlots, nm \in AllNames : PtLink(ns, ps, nm))
+     \/ (~M18 /\ \E ps \in RSlots, nm \in AllNames, d \in BOOLEAN : PtRemove(ps, nm, d))
+     \/ (~M18 /\ \E ps \in RSlots, ps2 \in RSlots, nm \in AllNames, nm2 \in AllNames, rf \in (IF Mode = "c05" THEN RenFlags ELSE {""}) : PtRename(ps, nm, ps2, nm2, rf))
      \/ \E ns \in RSlots, fl \in OFlags : PtOpen(ns, fl)
-     \/ (Mode # "c06" /\ \E hs \in 0..(Len(hslots) - 1) : PtRelease(hs))
-     \/ \E ns \in RSlots, hs \in HSlots, off \in {0, 1}, len \in {1, 4} : HOK(ns, hs) /\ PtRead(ns, hs, off, len, IF hs >= 0 /\ SlotH(hs) # 0 THEN htab[SlotH(hs)].flags \ {"TRUNC"} ELSE {})
-     \/ (Mode # "c06" /\ \E ns \in RSlots, hs \in HSlots, off \in 0..3, d \in {<<7>>, <<8, 9>>}, fl \in WFlags : HOK(ns, hs) /\ PtWrite(ns, hs, off, d, fl))
+     \/ (Mode \notin {"c06", "c18fd"} /\ \E hs \in 0..(Len(hslots) - 1) : PtRelease(hs))
+     \/ (Mode # "c18fd") /\ \E ns \in RSlots, hs \in HSlots, off \in {0, 1}, len \in {1, 4} : HOK(ns, hs) /\ PtRead(ns, hs, off, len, IF hs >= 0 /\ SlotH(hs) # 0 THEN htab[SlotH(hs)].flags \ {"TRUNC"} ELSE {})
+     \/ (Mode # "c06" /\ \E ns \in RSlots, hs \in HSlots, off \in (IF Mode = "c18fd" THEN {0, 3} ELSE 0..3), d \in (IF Mode = "c18fd" THEN {<<7>>} ELSE {<<7>>, <<8, 9>>}), fl \in WFlags : HOK(ns, hs) /\ PtWrite(ns, hs, off, d, fl))
      \/ (Mode = "c18" /\ \E ns \in RSlots, hs \in HSlots, m \in {{}, {"KEEP"}, {"PUNCH", "KEEP"}, {"ZERO"}, {"COLLAPSE"}, {"INSERT"}, {"PUNCH", "ZERO"}}, off \in {0, 1}, len \in {1, 2} :
             HOK(ns, hs) /\ PtFallocate(ns, hs, m, off, len))
-     \/ (Mode # "c06" /\ \E ns \in RSlots, hs \in HSlots \cup {-1}, sz \in {0, 1, 3} : HOK(ns, hs) /\ PtSetSize(ns, hs, sz))
+     \/ (Mode \notin {"c06", "c18fd"} /\ \E ns \in RSlots, hs \in HSlots \cup {-1}, sz \in {0, 1, 3} : HOK(ns, hs) /\ PtSetSize(ns, hs, sz))
 Init ==
   /\ S = OpenPath(InitS, Export, 0)
   /\ slots = <<1>> /\ hslots = <<>>
@@ -347,6 +363,8 @@ NameGateOK == "namegate" \notin bad
 ContainedOK == taint = {} => \A n \in DOMAIN itab : itab[n].i \notin OutsideOf(InitS) /\ (itab[n].i \in Ids(S) => itab[n].i \notin OutsideOf(S) \/ S.ino[itab[n].i].nlink = 0)
 OutsideFrozen == taint = {} => \A i \in OutsideOf(InitS) : i \in Ids(S) /\ S.ino[i] = InitS.ino[i] /\ (IsDir(InitS, i) /\ i # 1 => S.dent[i] = InitS.dent[i])
 Sealed == (Cfg.seal /\ taint = {}) => \A i \in DOMAIN size0 : (i \in Ids(S) /\ S.ino[i].t = "reg") => SizeOf(S.ino[i]) = size0[i]
+\* a handle the client holds keeps its open file description until it is released
+HandlesOK == \A j \in 0..(Len(hslots) - 1) : hslots[j + 1] # 0 => HKey(j) \in DOMAIN S.of
 SealRulesOK == bad \cap {"seal-neutral", "seal-refused-effect"} = {}
 \* taint report and scenario export at the end of a history (parsed by checks/pttree.py)
 Report == nops < MaxOps \/
